@@ -188,7 +188,7 @@ class QintImp(int, Qtype):
             # Add the shift result to t_num
             res = result_type.add(
                 (result_ttype, t_num_r[1]),
-                result_type.shift_left((result_ttype, t_num[1]), int(r / 2)),
+                QintImp.mul_even_const(t_num, r, result_type),
             )
         else:
             res = (result_ttype, t_num_r[1])
